@@ -25,8 +25,16 @@ impl KeepOptions {
             final(self).delete_unchanged == old(self).delete_unchanged, final(self).valid == old(self).valid,
     { unimplemented!() }
 }
-// Ord for SnapshotFile (time, then id ...): an uninterpreted total preorder; sort_unstable_by(cmp.reverse()) = newest first
-pub uninterp spec fn snap_le(a: SnapshotFile, b: SnapshotFile) -> bool;
+// Ord for SnapshotFile compares the snapshot times (unit snapshot_cmp); sort_unstable_by(cmp.reverse()) = newest first
+pub open spec fn snap_le(a: SnapshotFile, b: SnapshotFile) -> bool { TS(a.time) <= TS(b.time) }
+pub enum Ordering { Less, Equal, Greater }
+impl Zoned {
+    // Ord for jiff::Zoned: compares instants
+    #[verifier::external_body]
+    pub fn cmp(&self, other: &Zoned) -> (r: Ordering)
+        ensures r is Less <==> TS(*self) < TS(*other), r is Equal <==> TS(*self) == TS(*other), r is Greater <==> TS(*self) > TS(*other),
+    { unimplemented!() }
+}
 pub open spec fn newest_first(s: Seq<SnapshotFile>) -> bool { forall|i: int, j: int| 0 <= i <= j < s.len() ==> snap_le(s[j], s[i]) }
 #[verifier::external_body]
 pub fn vsort_newest_first(v: &mut Vec<SnapshotFile>)
